@@ -477,6 +477,34 @@ def rp_refetch_path(ctx, alg):
         time.time = real
 
 
+def rp_client_integrations_leeway(ctx):
+    """The relying party as applications use it: the Flask, Django and Starlette client integrations' authorize_access_token, with the
+    leeway the application passes (0, a small one, none: the 120 s default, a large one) against ID Tokens that expired a little or
+    long ago.  Expired beyond the leeway is refused, within it accepted."""
+    from impl import client_apps as CA
+    for fw in ("flask", "django", "starlette"):
+        for expired_by in (30, 119, 121, 200, -600):
+            for kw in ({"leeway": 0}, {"leeway": 1}, {"leeway": 60}, {}, {"leeway": 120}, {"leeway": 300}):
+                eff = kw.get("leeway", 120)
+                a = CA.ADAPTERS[fw](False)
+                real = time.time
+                time.time = a.clock
+                try:
+                    a.provider.id_token_exp = -expired_by
+                    a.begin(0, "oidc", "https://rp.example/cb")
+                    (res, sent) = a.callback(0, "oidc", 0, "code0", False, aat_kwargs=dict(kw))
+                finally:
+                    time.time = real
+                ok = res[0] == "token"
+                want = expired_by <= eff
+                case = {"rp_client_leeway": fw, "expired_by": expired_by, "leeway": kw.get("leeway", "omitted")}
+                ctx.case(case, ("rp-client-leeway", fw, expired_by, json.dumps(kw)), "rp-client-leeway:%s:%s" % (fw, "accept" if ok else "refuse"))
+                if ok != want:
+                    ctx.violation("C13:rp-client-leeway:%s:%s" % (fw, "accepted" if ok else "refused"),
+                                  "the %s client integration %s an ID Token that expired %d s ago although the application asked for a leeway of %s" %
+                                  (fw, "accepted" if ok else "refused", expired_by, kw.get("leeway", "the default 120 s")), dict(case, outcome=[str(x)[:80] for x in res[:3]]))
+
+
 def check_combo(ctx, rt, alg, nonce, extra, aud_as_text=False):
     AUD_AS_TEXT[0] = aud_as_text
     try:
@@ -629,10 +657,13 @@ def run(ctx):
         if alg in ALGS:
             rp_key_rotation(ctx, alg)
             rp_refetch_path(ctx, alg)
+    rp_client_integrations_leeway(ctx)
     nonce_sequences(ctx, 60 if ctx.tier == "quick" else 600)
 
 
 def run_case(ctx, case):
+    if "rp_client_leeway" in case:
+        return rp_client_integrations_leeway(ctx)
     ctx.oracles = oracles()
     if "steps" in case:
         nonce_sequences(ctx, 0)
